@@ -74,7 +74,7 @@ def CertSt.hashOf (s : CertSt) (t : String) : Option Hash :=
   else if t == "G" then some genesisHash
   else (s.blocks.lookup t).map (·.hash)
 
-def CertSt.msgOf (s : CertSt) (t : String) : Option Msg :=
+def CertSt.msgOfBase (s : CertSt) (t : String) : Option Msg :=
   if t.startsWith "blk:" then
     let b := dropStr 4 t
     if b == "G" then some (blkMsg genesisHash) else (s.blocks.lookup b).map (fun x => blkMsg x.hash)
@@ -89,6 +89,18 @@ def CertSt.msgOf (s : CertSt) (t : String) : Option Msg :=
     | _ => none
   else if t.startsWith "raw:" then some t
   else none
+
+/-- `enc:<id>:<msg>`: the bytes the signature cache hashes for the one-entry batch `{id: msg}` (id, length,
+message), used as a MESSAGE of its own — symbolically a different message -/
+def CertSt.msgOf (s : CertSt) (t : String) : Option Msg :=
+  if t.startsWith "enc:" then
+    match splitChar ':' (dropStr 4 t) with
+    | id :: rest =>
+      match id.toNat?, s.msgOfBase (joinWith ":" rest) with
+      | some id, some inner => some s!"enc:{id}:{inner}"
+      | _, _ => none
+    | [] => none
+  else s.msgOfBase t
 
 def CertSt.sigOrNil (s : CertSt) (t : String) : Option (Option Sig) :=
   if t == "nil" then some none else (s.sigs.lookup t).map some
